@@ -251,7 +251,7 @@ class Emit:
             inner = ','.join(e.c for e in els)
             return Val('{%s}' % inner if fn is None else '(%s){%s}' % (s.ctype(t), inner), t)
         raise SyntaxError('value? %r %r' % (k, v))
-    def gname(s, n): return 'g_' + cid(n)
+    def gname(s, n): return cid(n) if cid(n) in RTGLOBALS else 'g_' + cid(n)
     def fname(s, n):
         c = cid(n)
         return c
@@ -322,7 +322,7 @@ class Emit:
         s.ctors = []
         gc = m.globals.get('@llvm.global_ctors')
         if gc: s.ctors = [x for x in re.findall(r'void \(\)\* (@"(?:[^"\\]|\\.)*"|@[-a-zA-Z$._0-9]+)', gc)]
-        s.entries = list(s.entries) + s.ctors
+        s.entries = list(s.entries) + s.ctors + [n for n in m.funcs if n.startswith('@vh_')]   # vh_*: harness hooks called from rt/ models
         reach = s.reachable()
         s.translated = [n for n in reach if n in m.funcs and n not in s.stubs]
         protos = []
@@ -383,7 +383,7 @@ class Emit:
     def emit_globals(s):
         out = []
         for name, ln in s.m.globals.items():
-            if name not in s.used_globals or name == '@llvm.global_ctors': continue
+            if name not in s.used_globals or name == '@llvm.global_ctors' or cid(name) in RTGLOBALS: continue
             p = P(tokenize(ln)); p.next(); p.expect('=')
             ext = False
             while p.peek()[1] not in ('global', 'constant'):
@@ -396,7 +396,7 @@ class Emit:
             p.next(); t = parse_type(p)
             ct = s.ctype(t)
             if ext or p.peek()[0] == 'eof' or p.at(','):
-                if ext and name.startswith('@_ZTVN10__cxxabiv'): ext = False   # RTTI helper vtables: only their address is used
+                if ext and (name.startswith('@_ZTVN10__cxxabiv') or name == '@__dso_handle'): ext = False   # RTTI helper vtables: only their address is used
                 out.append('extern %s %s;' % (ct, s.gname(name)) if ext else '%s %s;' % (ct, s.gname(name))); continue
             v = s.parse_val(p, t, None)
             init = v.c
@@ -405,7 +405,7 @@ class Emit:
         # order: declarations first to allow address cross refs
         decls = []
         for name, ln in s.m.globals.items():
-            if name in s.used_globals and name != '@llvm.global_ctors':
+            if name in s.used_globals and name != '@llvm.global_ctors' and cid(name) not in RTGLOBALS:
                 p = P(tokenize(ln));
                 while p.peek()[1] not in ('global', 'constant'): p.next()
                 p.next(); t = parse_type(p); decls.append('extern %s %s;' % (s.ctype(t), s.gname(name)))
@@ -679,9 +679,13 @@ class Emit:
     def intrinsic(s, name, args, rt):
         n = name[6:]
         if n.startswith(('lifetime.', 'dbg.', 'experimental.noalias', 'assume', 'invariant.', 'prefetch', 'x86.sse2.clflush', 'x86.clflushopt')): return None
-        if n.startswith('memcpy.') : return 'memcpy(%s, %s, %s)' % (args[0].c, args[1].c, args[2].c)
-        if n.startswith('memmove.'): return 'memmove(%s, %s, %s)' % (args[0].c, args[1].c, args[2].c)
-        if n.startswith('memset.'): return 'memset(%s, %s, %s)' % (args[0].c, args[1].c, args[2].c)
+        # constant length: CBMC's built-in models; symbolic length: bounded byte loops (rt/vll_rt.h) - CBMC's
+        # array-theory encoding of variable-length memset/memcpy does not scale
+        const_len = len(args) > 2 and re.fullmatch(r'\(\(uint\d+_t\)\d+ULL\)', args[2].c) is not None
+        pre = '' if const_len else 'vll_'
+        if n.startswith('memcpy.') : return pre + 'memcpy(%s, %s, %s)' % (args[0].c, args[1].c, args[2].c)
+        if n.startswith('memmove.'): return pre + 'memmove(%s, %s, %s)' % (args[0].c, args[1].c, args[2].c)
+        if n.startswith('memset.'): return pre + 'memset(%s, %s, %s)' % (args[0].c, args[1].c, args[2].c)
         if n.startswith('expect.'): return args[0].c
         if n.startswith(('umul.with.overflow', 'uadd.with.overflow', 'usub.with.overflow', 'smul.with.overflow', 'sadd.with.overflow', 'ssub.with.overflow')):
             ct = s.ctype(rt); k = n.split('.')[0]
@@ -698,6 +702,7 @@ class Emit:
         if n.startswith('abs.'): return '(%s)(%s < 0 ? -%s : %s)' % (s.ctype(rt), s.sx(args[0]), s.sx(args[0]), s.sx(args[0]))
         raise NotImplementedError('intrinsic ' + name)
 
+RTGLOBALS = {'vra_loc_overflow_prunes', 'vll_fatal_ok', 'vll_fatal_seen', 'vll_exc', 'vll_exc_obj', 'vll_exc_type'}
 BUILTIN = {'__CPROVER_assume', '__CPROVER_assert', 'malloc', 'free', 'memcpy', 'memset', 'memmove', 'strlen', 'memchr', 'memcmp', 'exit',
            'vnd_u64', 'vnd_range', 'vassume', 'vassert_at', 'vwitness_at', 'vobs', 'vll_abort', 'vll_assert_fail', 'vll_printf', 'vll_fprintf', 'vll_puts',
            'vll_cxa_atexit', 'vll_guard_acquire', 'vll_guard_release', 'vll_pure_virtual',
